@@ -326,7 +326,8 @@ def run_scenario(sc):
     n_md = sum(len(o['mds']) for o in sc['objs'])
     steps = []
     snap0 = snapshot(reg, mdreg)
-    via_tree = False
+    import zlib
+    via0 = zlib.crc32(repr(sc['ops']).encode())
     for op in sc['ops']:
         pre = snap0
         k = op[0]
@@ -335,22 +336,29 @@ def run_scenario(sc):
         donor_root = recv_root = None
         try:
             with core.quiet():
+                # every operation is reachable under several spellings: the method itself, or the .tree(...) dispatcher
+                sp = (via0 + len(steps)) % 3
                 if k == 'add':
-                    reg[op[1]].add_to_tree(reg[op[2]])
+                    if sp == 0: reg[op[1]].add_to_tree(reg[op[2]])
+                    elif sp == 1: reg[op[1]].tree(add=reg[op[2]])
+                    else: reg[op[1]].tree(reg[op[2]])
                 elif k == 'fadd':
                     d = reg[op[2]]
                     donor_root, recv_root = d._root, reg[op[1]]._root
-                    reg[op[1]].force_add_to_tree(d)
+                    if sp == 0: reg[op[1]].force_add_to_tree(d)
+                    else: reg[op[1]].tree(d, force=True)
                 elif k == 'graft':
                     d = reg[op[2]]
                     donor_root, recv_root = d._root, reg[op[1]]._root
                     dkeys = list(donor_root._metadata.keys()) if donor_root is not None else []
-                    reg[op[1]].graft(d, merge_metadata=PYOPT[op[3]])
+                    if sp == 0: reg[op[1]].graft(d, merge_metadata=PYOPT[op[3]])
+                    elif sp == 1 or PYOPT[op[3]] is not True: reg[op[1]].tree(graft=(d, PYOPT[op[3]]))
+                    else: reg[op[1]].tree(graft=d)
                 elif k == 'cut':
                     d = reg[op[1]]
                     donor_root = d._root
                     dkeys = list(donor_root._metadata.keys()) if donor_root is not None else []
-                    new_root = d.cut(root_metadata=PYOPT[op[2]])
+                    new_root = d.cut(root_metadata=PYOPT[op[2]]) if sp == 0 else d.tree(cut=PYOPT[op[2]])
                     recv_root = new_root
         except Exception as e:
             ok, exc = False, type(e).__name__
